@@ -28,6 +28,9 @@ fn check(h: &[Op]) -> Option<Witness> {
                 match r {
                     Err(e) => {
                         if e != (error::Error::ColValNumMismatch { col_len: ncols, val_len: k }) { return w(format!("call {i}: error {e:?}"), "ColValNumMismatch with both counts"); }
+                        // .. and reports them the way round it names them (`Columns and values ..: <columns> != <values>`; also the panic text of values_panic)
+                        let (msg, want) = (e.to_string(), format!("{ncols} != {k}"));
+                        if !msg.ends_with(&want) { return w(format!("call {i}: error text {msg:?}"), &format!("the column count, then the value count: `.. {want}`")); }
                         if s != before { return w(format!("call {i}: rejected row changed the statement"), "statement unchanged after an error"); }
                     }
                     Ok(()) => { if k > 0 { rows.push(i + 1); select = None; } }
